@@ -14,6 +14,10 @@ pub struct Db { tag: &'static str }
 #[entrait(pub Fetch)]
 fn fetch(db: &Db, a: u8, b: u8) -> String { rec(format!("fetch {} {a} {b}", db.tag)); format!("{}:{a}:{b}", db.tag) }
 
+// a concrete dependency whose reference carries an explicit lifetime (late-bound: it cannot be named by turbofish)
+#[entrait(pub FetchLt)]
+fn fetch_lt<'a>(db: &'a Db, key: &'a str) -> &'a str { rec(format!("fetch_lt {} {key}", db.tag)); &key[1..] }
+
 pub struct OtherApp;
 impl Fetch for OtherApp { fn fetch(&self, a: u8, b: u8) -> String { rec(format!("other {a} {b}")); format!("other:{a}:{b}") } }
 
@@ -83,6 +87,9 @@ fn main() {
     let db = Db { tag: "db" };
     expect!("c05.direct", db.fetch(1, 2), "db:1:2", vec!["fetch db 1 2"]);
     expect!("c05.via_impl", Impl::new(Db { tag: "x" }).uses_fetch(3), "x:3:4", vec!["fetch x 3 4"]);
+    expect!("c05.lifetime.direct", db.fetch_lt("abc"), "bc", vec!["fetch_lt db abc"]);
+    let app_y = Impl::new(Db { tag: "y" });
+    expect!("c05.lifetime.via_impl", app_y.fetch_lt("xyz"), "yz", vec!["fetch_lt y xyz"]);
     expect!("c05.other_app", Impl::new(OtherApp).uses_fetch(3), "other:3:4", vec!["other 3 4"]);
     // C06
     let app6 = Impl::new(App6 { r: Box::new(R), b: Box::new(B) });
@@ -95,6 +102,6 @@ fn main() {
     expect!("c07.dynamic", app7.dy(2, 1), 1033, vec!["D1::dy 2 1"]);
     expect!("c07.static.other_app", Impl::new(App7b).st(1, 2), 9003, vec!["S2::st 1 2"]);
     expect!("c07.static.paren_self_ty", app7.st3(4, 5), 1009, vec!["S3::st3 4 5"]);
-    println!("DELEG-PROBE cases=10 failed={bad}");
+    println!("DELEG-PROBE cases=12 failed={bad}");
     std::process::exit(if bad == 0 { 0 } else { 1 });
 }
